@@ -332,7 +332,9 @@ func (p *planner) openWriter() bool {
 				w.start = s.ts[len(s.ts)-1] + 1
 			}
 		}
-		w.next = w.start + int64(rapid.IntRange(0, 3).Draw(p.t, "first"))
+		// WriterConfig.Start is documented as "the starting timestamp of the first sample
+		// to be written", so a legal script's first sample is stamped exactly at Start.
+		w.next = w.start
 		w.chans = append([]uint32{g.idx}, p.subset(g.data, 0, "wch")...)
 	}
 	p.nextW++
@@ -438,6 +440,51 @@ func (p *planner) rng(label string) (int64, int64) {
 	return a, b
 }
 
+// del plans a time-range delete: data channels only, an index channel only, or a whole
+// index group; afterwards the group's segments are no longer used as anchors for
+// data-only writers (their timestamps may be gone).
+func (p *planner) del() {
+	a, b := p.rng("del")
+	for tries := 0; a >= b && tries < 4; tries++ {
+		a, b = p.rng("del")
+	}
+	if a >= b {
+		b = a + int64(rapid.IntRange(1, 50).Draw(p.t, "dlen"))
+	}
+	var keys []uint32
+	var touched []*planGroup
+	switch rapid.IntRange(0, 3).Draw(p.t, "dkind") {
+	case 0: // one index channel alone
+		g := p.groups[rapid.IntRange(0, len(p.groups)-1).Draw(p.t, "dg")]
+		keys = []uint32{g.idx}
+		touched = []*planGroup{g}
+	case 1: // a whole group
+		g := p.groups[rapid.IntRange(0, len(p.groups)-1).Draw(p.t, "dg")]
+		keys = append([]uint32{g.idx}, g.data...)
+		touched = []*planGroup{g}
+	default: // data channels only, across groups
+		var data []uint32
+		for _, g := range p.groups {
+			data = append(data, g.data...)
+		}
+		if len(data) == 0 {
+			g := p.groups[0]
+			keys = []uint32{g.idx}
+		} else {
+			keys = p.subset(data, 1, "dk")
+		}
+		touched = p.groups
+	}
+	for _, g := range touched {
+		for _, s := range g.segs {
+			for _, d := range g.data {
+				s.has[d] = true
+			}
+		}
+	}
+	p.ops = append(p.ops, vOp{K: "delete", A: a, B: b, Keys: keys})
+}
+
 func (p *planner) allKeys() []uint32 {
 	var ks []uint32
 	for _, c := range p.sch.Chans {
@@ -495,11 +542,10 @@ func genScript(t *rapid.T, o genOpts) vScript {
 			p.ops = append(p.ops, vOp{K: "sleep", D: int64(rapid.IntRange(1, 3000).Draw(t, "sleep")) * int64(time.Millisecond)})
 		case k == 16 && !o.NoReopen && len(open) == 0:
 			p.ops = append(p.ops, vOp{K: "reopen"})
-		case k == 17 && o.Deletes && dels < o.MaxDeletes && len(open) == 0:
-			a, b := p.rng("del")
-			p.ops = append(p.ops, vOp{K: "delete", A: a, B: b, Keys: p.subset(p.allKeys(), 1, "dk")})
+		case (k == 17 || k == 19 && o.Deletes) && o.Deletes && dels < o.MaxDeletes && len(open) == 0:
+			p.del()
 			dels++
-		case k == 18 && o.GC && gcs < o.MaxGC:
+		case k == 18 && o.GC && gcs < o.MaxGC && len(open) == 0:
 			p.ops = append(p.ops, vOp{K: "gc"})
 			gcs++
 		default:
@@ -562,7 +608,14 @@ type vRun struct {
 	opts    []Option
 	// facts for non-triviality
 	commits, cutReads, reads int
+	deletes, gcs             int
+	lastFailKey              uint32
+	// taint is set once the run has performed an operation that is a recorded known
+	// finding's precondition and corrupts state; it prefixes every later signature.
+	taint string
 	shape                    []string
+	// nontrivial overrides the default non-triviality rule of the engine
+	nontrivial func(r *vRun) bool
 }
 
 func newRun(st *drv.Stats, sch vSchema) *vRun {
@@ -1042,6 +1095,7 @@ func (r *vRun) fullCheck(what string) *drv.Failure {
 			return drv.Failf("unexpected-error", "read:"+errSig(err), "%s full read ch %d: %v", what, k, err)
 		}
 		if f := r.checkRead(what+" full", fr, []uint32{k}, int64(telem.TimeStampMin), int64(telem.TimeStampMax)); f != nil {
+			r.lastFailKey = k
 			return f
 		}
 	}
@@ -1095,6 +1149,13 @@ func (r *vRun) countDataFiles(k uint32) int {
 
 // runSeq executes a script sequentially (op tier) inside a bubble.
 func runSeq(t *testing.T, sc vScript, st *drv.Stats, setup func(r *vRun)) (fail *drv.Failure) {
+	var run *vRun
+	defer func() {
+		if fail != nil && run != nil && run.taint != "" && fail.Class != "harness" {
+			fail.Sig = "tainted:" + run.taint + ":" + fail.Class + ":" + fail.Sig
+			fail.Class = "tainted"
+		}
+	}()
 	synctest.Test(t, func(t *testing.T) {
 		defer func() {
 			if p := recover(); p != nil {
@@ -1102,6 +1163,7 @@ func runSeq(t *testing.T, sc vScript, st *drv.Stats, setup func(r *vRun)) (fail 
 			}
 		}()
 		r := newRun(st, sc.Schema)
+		run = r
 		if setup != nil {
 			setup(r)
 		}
@@ -1178,6 +1240,9 @@ func runSeq(t *testing.T, sc vScript, st *drv.Stats, setup func(r *vRun)) (fail 
 			sb.WriteString(strconv.Itoa(len(r.model.All(c.Key))))
 		}
 		nontrivial := (r.commits >= 2 || roll) && r.cutReads >= 1
+		if r.nontrivial != nil {
+			nontrivial = r.nontrivial(r)
+		}
 		st.Case(drv.Hash64(sb.String(), strings.Join(r.shape, ","), strconv.FormatInt(sc.Schema.FileSize, 10)), nontrivial)
 	})
 	return fail
